@@ -86,6 +86,13 @@ fn link_sequences(link: u8, len: usize, stave: bool) -> Vec<Seq> {
         p.words.clear();
     }
     v.push(Seq { name: format!("link{link}-header-only"), packets: h });
+    // memory size smaller than the offset to the next RDH (the bytes in between are slot filler): harmless where
+    // payloads are stepped over by the offset (RDH-only modes); used in `check all` only
+    let mut m = clean.clone();
+    for p in m.iter_mut().skip(1) {
+        p.packet.rdh.memory_size = 64;
+    }
+    v.push(Seq { name: format!("link{link}-memory-size-below-offset"), packets: m });
     v
 }
 
@@ -330,6 +337,13 @@ pub fn run(tier: Tier) -> i32 {
                 c[l] = 1 + l % 2;
                 combos.push(c);
             }
+            if mode == Mode::All {
+                for l in 0..sh.len() {
+                    let mut c = vec![1; sh.len()];
+                    c[l] = 4;
+                    combos.insert(1, c);
+                }
+            }
             // one link made of header-only packets beside corrupted ones (three links: the header-only packet is then
             // also the second of two stepped-over packets for some filter)
             if !stave {
@@ -338,7 +352,7 @@ pub fn run(tier: Tier) -> i32 {
                 combos.insert(1, c);
             }
             for (ci, combo) in combos.iter().enumerate() {
-                if !tier.is_thorough() && mode != Mode::AllIts && ci > 1 {
+                if !tier.is_thorough() && mode != Mode::AllIts && ci > 1 && !combo.iter().any(|v| *v >= 3) {
                     continue;
                 }
                 let seqs: Vec<Seq> = combo.iter().enumerate().map(|(l, v)| per_link[l][*v].clone()).collect();
